@@ -128,7 +128,7 @@ func validateRun(cmd *cobra.Command, args []string) error {
 
 		// Write SARIF output to file or stdout
 		if validateOutputFile != "" {
-			if err := os.WriteFile(validateOutputFile, sarifData, 0600); err != nil {
+			if err := writeFileAtomic(validateOutputFile, sarifData, 0600); err != nil {
 				return fmt.Errorf("failed to write SARIF output: %w", err)
 			}
 			if !opts.Quiet {
@@ -146,7 +146,7 @@ func validateRun(cmd *cobra.Command, args []string) error {
 
 		// Write JSON output to file or stdout
 		if validateOutputFile != "" {
-			if err := os.WriteFile(validateOutputFile, jsonData, 0600); err != nil {
+			if err := writeFileAtomic(validateOutputFile, jsonData, 0600); err != nil {
 				return fmt.Errorf("failed to write JSON output: %w", err)
 			}
 			if !opts.Quiet {
